@@ -93,8 +93,8 @@ for _pid, _num, _labs, _sig in [
     ("C01", 1, ["drv"], {"1": "a hop was reported for a packet that is not a genuine reply to this run's probe with that TTL from that address", "1.9": "a hop from bytes the model cannot even parse"}),
     ("C02", 2, ["drv", "eng"], {"6.1": "a catalogue reply form is recognised by the matcher but rejected by the capture filter the entry point installs", "2": "a catalogue reply form was not recognised", "2.1": "a catalogue reply form was credited to the wrong TTL or responder", "2.2": "ACK without SACK blocks did not end the SACK run as not-supported", "2.3": "parallel engine: a reply readable one poll interval before the deadline was not accepted"}),
     ("C04", 4, ["drv", "doc", "eng"], {"4": "destination flag differs from the protocol's proof of arrival from the target", "7": "engine: reported hop (address, RTT, destination flag) is not the reply kept by the merge rule"}),
-    ("C05", 5, ["drv", "eng"], {"1": "the RTT was measured for a packet that does not answer the probe it was credited to (another probe's send time)", "5": "RTT is negative or not (processing instant - send instant of a probe with that TTL); engine kept a later duplicate"}),
-    ("C06", 6, ["drv", "eng"], {"6.1": "probe malformed: version/IHL, TTL byte, length or checksum", "6.2": "probe flow fields differ from the run's", "6.3": "identifier shared with the probe of another TTL", "6": "emission order / pacing / stop-after-destination violated"}),
+    ("C05", 5, ["drv", "eng", "doc"], {"5.3": "end-to-end statistics treat a 0 (= no answer) sample as a round trip, or are otherwise not those of the answered probes", "1": "the RTT was measured for a packet that does not answer the probe it was credited to (another probe's send time)", "5": "RTT is negative or not (processing instant - send instant of a probe with that TTL); engine kept a later duplicate"}),
+    ("C06", 6, ["drv", "eng", "par"], {"6.5": "the source / destination endpoint reported in a run's result is not the one on the wire (real run, parameter lab kind 12)", "6.1": "probe malformed: version/IHL, TTL byte, length or checksum", "6.2": "probe flow fields differ from the run's", "6.3": "identifier shared with the probe of another TTL", "6": "emission order / pacing / stop-after-destination violated"}),
     ("C09", 9, ["drv"], {"9.1": "the driver panicked", "9.2": "a non-empty inbound packet produced a run-aborting error", "9.3": "not-supported from a packet other than the permitted SACK case"}),
 ]:
     PROPS[_pid] = dict(num=_num, labs=_labs, rule=DRV_RULE + (" " + ENG_RULE if "eng" in _labs else "") + (" " + DOC_RULE if "doc" in _labs else ""),
@@ -108,6 +108,7 @@ PAR_RULE = ("Parameter / policy lab: (8) the real RunTraceroute over the simulat
             "udp/tcp/icmp/unknown protocol, syn/default/unknown method, IPv4 and IPv6 loopback targets: error vs the TTLs, address, port and protocol actually on the wire; every fourth request also through the real command line (cobra flags --proto --max-ttl --port --tcp-method --ipv6, incl. --max-ttl -30/-1/0/256/300) with the same observables; (9) the HTTP handler's query parsing on numeric/non-numeric/absent values; "
             "(10) target literal forms (IPv4, IPv6, bracketed, with and without port) x default ports around 0/1/65535/65536; (11) performTCPFallback with random error trees (wrap depth <= 4, NotSupportedError at any depth, errors.Join); "
             "(12) the real runTracerouteOnce for syn/sack/prefer_sack against a loopback listener the harness owns (accept count = connections opened) with handshake segments synthesised on the simulated wire: SACK-permitted with/without timestamps, no SACK-permitted, ACKs without SACK blocks, port closed, handshake never captured, and injected filter/send/read failures.")
+PROPS["C06"]["rule"] = PROPS["C06"]["rule"] + " " + PAR_RULE
 PAR_TRUSTED = ["real sockets are used only for LocalAddrForHost / reserveLocalPort / the loopback dial; every packet is written to the simulated sink", "net.SplitHostPort, netip.ParseAddr, strconv.Atoi, errors.Is/As/Join are modelled only"]
 PROPS["C19"] = dict(num=19, labs=["par", "drv", "eng"], rule=PAR_RULE + " " + DRV_RULE, nontrivial="any case", trivial_classes=[],
     signatures={"19.9": "HTTP query: a well-formed value (port, max-ttl, traceroute-queries, e2e-queries, timeout in ms, a boolean flag) was replaced by another value instead of being handed on (honoured or rejected)", "19.1": "TTL byte of an emitted probe differs from the TTL asked of the driver", "19.2": "a request with TTL bounds outside 1..255 (or min > max) was executed", "19.3": "probes on the wire do not cover exactly the requested TTL range",
